@@ -98,7 +98,7 @@ SORTS = {
     'Seq[YNode]': NodeSeq, 'Seq[YPair]': PairSeq, 'Seq[str]': StrSeq,
     'Seq[int]': IntSeq, 'Seq[bool]': BoolSeq, 'Kind': Kind, 'Ty': Ty,
     'Seq[Ty]': TySeq, 'Set[Ty]': TySet, 'PV': PV, 'Fl': Fl, 'RErr': RErr,
-    'Seq[RErr]': ErrSeq,
+    'Seq[RErr]': ErrSeq, 'Set[str]': z3.ArraySort(S, B),
 }
 
 
